@@ -4,19 +4,19 @@ namespace Hc.Handover
 /-- invariant of the repaired hand-over, for arbitrary operation sequences: nothing is ever written encrypted before a
     response went out in the clear, and the connection has a current cryptographer only after that response -/
 def Inv (s : St) : Prop :=
-  s.respEncrypted ≠ some true ∧ (s.respEncrypted = none → s.cur = false)
+  s.respEncrypted ≠ some true ∧ (s.respEncrypted = none → s.cur = false) ∧ (s.respEncrypted = none → s.writing = false)
 
 theorem inv_init : Inv init := by simp [Inv, init]
 
 theorem inv_step (st : Bool) (s : St) (o : Op) (h : Inv s) : Inv (step true st true s o) := by
-  obtain ⟨cur, next, pending, resp, wire, del, aw, cl, fp, qd, eo, ed⟩ := s
-  obtain ⟨h1, h2⟩ := h
+  obtain ⟨cur, next, pending, resp, wire, del, aw, cl, fp, qd, eo, ed, wr⟩ := s
+  obtain ⟨h1, h2, h3⟩ := h
   cases cl
   · cases o <;> simp only [step, Bool.false_eq_true, if_false, if_true] <;> (repeat' split) <;>
       first
-      | exact ⟨h1, h2⟩
+      | exact ⟨h1, h2, h3⟩
       | (simp_all [Inv])
-  · simp only [step, if_true]; exact ⟨h1, h2⟩
+  · simp only [step, if_true]; exact ⟨h1, h2, h3⟩
 
 theorem inv_run (st : Bool) (ops : List Op) : Inv (run true st true ops) := by
   have : ∀ s, Inv s → Inv (ops.foldl (step true st true) s) := by
@@ -33,7 +33,7 @@ def Inv2 (s : St) : Prop :=
 theorem inv2_init : Inv2 init := by simp [Inv2, init]
 
 theorem inv2_step (s : St) (o : Op) (h : Inv2 s) : Inv2 (step true true true s o) := by
-  obtain ⟨cur, next, pending, resp, wire, del, aw, cl, fp, qd, eo, ed⟩ := s
+  obtain ⟨cur, next, pending, resp, wire, del, aw, cl, fp, qd, eo, ed, wr⟩ := s
   cases cl
   · cases o <;> simp only [step, Bool.false_eq_true, if_false, if_true] <;> (repeat' split) <;>
       first
@@ -53,7 +53,7 @@ theorem inv2_run (ops : List Op) : Inv2 (run true true true ops) := by
 def Inv3 (s : St) : Prop := s.evDuring = false
 
 theorem inv3_step (st : Bool) (s : St) (o : Op) (h : Inv3 s) : Inv3 (step true st true s o) := by
-  obtain ⟨cur, next, pending, resp, wire, del, aw, cl, fp, qd, eo, ed⟩ := s
+  obtain ⟨cur, next, pending, resp, wire, del, aw, cl, fp, qd, eo, ed, wr⟩ := s
   cases cl
   · cases o <;> simp only [step, Bool.false_eq_true, if_false, if_true] <;> (repeat' split) <;> exact h
   · simp only [step, if_true]; exact h
@@ -66,12 +66,15 @@ theorem inv3_run (st : Bool) (ops : List Op) : Inv3 (run true st true ops) := by
   exact this init rfl
 
 /-- once the answer is out (and the connection is open) nothing is kept back any more -/
-def Inv4 (s : St) : Prop := s.awaiting = false → s.closed = false → s.queued = 0
+def Inv4 (s : St) : Prop := s.awaiting = false → s.writing = false → s.closed = false → s.queued = 0
 
 theorem inv4_step (st : Bool) (s : St) (o : Op) (h : Inv4 s) : Inv4 (step true st true s o) := by
-  obtain ⟨cur, next, pending, resp, wire, del, aw, cl, fp, qd, eo, ed⟩ := s
+  obtain ⟨cur, next, pending, resp, wire, del, aw, cl, fp, qd, eo, ed, wr⟩ := s
   cases cl
-  · cases o <;> simp only [step, Bool.false_eq_true, if_false, if_true] <;> (repeat' split) <;> simp_all [Inv4]
+  · cases o <;> simp only [step, Bool.false_eq_true, if_false, if_true] <;> (repeat' split) <;>
+      first
+      | exact h
+      | (intro ha hw hc; simp only [Inv4] at h; simp_all)
   · simp only [step, if_true]; exact h
 
 theorem inv4_run (st : Bool) (ops : List Op) : Inv4 (run true st true ops) := by
